@@ -24,7 +24,7 @@ ASSUMPTIONS = ['mpmath 50-digit arithmetic is exact relative to float64',
                'rounding bounds: c*eps*cond(S) for mean/innovation, Joseph-form bound for P; '
                'cases with eps*cond(S) > 1e-5 are counted as ill-conditioned-skipped for the '
                'mean/innovation comparison only']
-REQUIRED_OBS = ['post_checked', 'mean_compared', 'innovation_compared', 'sequential_compared',
+REQUIRED_OBS = ['exactly_zero_residuals', 'partly_zero_residuals', 'post_checked', 'mean_compared', 'innovation_compared', 'sequential_compared',
                 'info_form_compared', 'ambient_calls_checked']
 REQUIRED_CLASSES = {'all': ['well', 'illcond', 'rankdef_P', 'rankdef_H', 'offdiag_S', 'ambient']}
 EPS = np.finfo(float).eps
@@ -186,6 +186,22 @@ def gen(case):
     if rng.random() < 0.2:
         x = np.zeros(n)             # an error-state (feedback) filter corrects from an exactly zero prior mean
     z = H @ x + rng.standard_normal(m) * np.sqrt(np.abs(np.diag(H @ P @ H.T + R)))
+    # measurements that agree EXACTLY with the prediction (residual identically zero) - wholly, or in one independent block only: the
+    # covariance must shrink all the same and a sequential pass must not skip the block (error-state filters meet z = 0, x = 0; whole-number
+    # H and x give z = H x exactly)
+    r = rng.random()
+    if r < 0.07:
+        x = np.zeros(n)
+        z = np.zeros(m)
+    elif r < 0.13:
+        H = np.rint(2 * H)
+        x = np.rint(3 * rng.standard_normal(n))
+        z = H @ x
+    elif r < 0.19 and len(sizes) > 1:
+        x = np.zeros(n)
+        k0 = int(rng.integers(0, len(sizes)))
+        a = int(np.sum(sizes[:k0]))
+        z[a:a + sizes[k0]] = 0.0
     return x, P, z, H, R, sizes
 
 
@@ -236,6 +252,11 @@ def run_case(case):
     LAST.clear()
     LAST['oracle'] = True
     obs = LAST.setdefault('obs', {})
+    res0 = z - H @ x
+    if not res0.any():
+        obs['exactly_zero_residuals'] = 1
+    elif (res0 == 0).any():
+        obs['partly_zero_residuals'] = 1
     try:
         xj, Pj, nuj = kalman.correct(x, P, z, H, R)
     except Exception as e:
